@@ -299,3 +299,75 @@ Proof.
     + specialize (Hn TCrash (or_introl eq_refl)). discriminate.
 Qed.
 End Errors.
+
+(* ---------------------------------------------------------------- the fuel suffices *)
+Lemma resolve_from_lt ds n : forall i acc j,
+  (forall k, acc = Some k -> k < i + length ds) ->
+  resolve_from i ds n acc = Some j -> j < i + length ds.
+Proof.
+  induction ds as [|d ds IH]; cbn [resolve_from length]; intros i acc j Hacc H.
+  - apply Hacc, H.
+  - replace (i + S (length ds)) with (S i + length ds) by lia. eapply IH; [|exact H].
+    intros k Hk. destruct (mem_str n (d_names d)); [injection Hk as <-; lia|]. specialize (Hacc k Hk). lia.
+Qed.
+
+Lemma resolve_lt ds n j : resolve ds n = Some j -> j < length ds.
+Proof. unfold resolve. intros H. apply (resolve_from_lt ds n 0 None j); [discriminate|exact H]. Qed.
+
+Definition bounded (N : nat) (l : list nat) : Prop := forall x, In x l -> x < N.
+
+Lemma bounded_nodup_length N l : NoDup l -> bounded N l -> length l <= N.
+Proof.
+  intros Hn Hb. rewrite <- (seq_length N 0). apply NoDup_incl_length; [exact Hn|].
+  intros x Hx. apply in_seq. specialize (Hb x Hx). lia.
+Qed.
+
+(* with more fuel than unmarked declarations the visit finishes *)
+Lemma visit_terminates ds : forall f id st,
+  id < length ds -> NoDup (fst st) -> bounded (length ds) (fst st) ->
+  length ds - length (fst st) < f ->
+  exists st', visit f ds id st = Some st' /\ NoDup (fst st') /\ bounded (length ds) (fst st') /\ incl (fst st) (fst st').
+Proof.
+  induction f as [|f IH]; intros id st Hid Hn Hb Hf; [lia|].
+  cbn [visit]. destruct (mem_nat id (fst st)) eqn:Em.
+  - exists st. auto using incl_refl.
+  - apply mem_nat_false in Em.
+    change (fold_left _ (deps_of ds id) (Some (id :: fst st, snd st))) with (visit_deps f ds (deps_of ds id) (Some (id :: fst st, snd st))).
+    assert (Hn1 : NoDup (id :: fst st)) by (constructor; assumption).
+    assert (Hb1 : bounded (length ds) (id :: fst st)) by (intros x [<-|Hx]; auto).
+    assert (Hlen : S (length (fst st)) <= length ds) by (apply (bounded_nodup_length _ (id :: fst st)); assumption).
+    assert (Hfold : forall deps s0, NoDup (fst s0) -> bounded (length ds) (fst s0) -> length ds - length (fst s0) < f ->
+              exists s1, visit_deps f ds deps (Some s0) = Some s1 /\ NoDup (fst s1) /\ bounded (length ds) (fst s1) /\ incl (fst s0) (fst s1)).
+    { induction deps as [|dep deps IHd]; intros s0 N0 B0 F0.
+      - exists s0. cbn. auto using incl_refl.
+      - rewrite visit_deps_cons. destruct (resolve ds dep) as [j|] eqn:Er.
+        + destruct (IH j s0 (resolve_lt _ _ _ Er) N0 B0 F0) as (s0' & Ev & N1 & B1 & I1). rewrite Ev.
+          assert (F1 : length ds - length (fst s0') < f).
+          { pose proof (NoDup_incl_length N0 I1). lia. }
+          destruct (IHd s0' N1 B1 F1) as (s1 & E1 & N2 & B2 & I2).
+          exists s1. repeat split; auto. eapply incl_tran; eauto.
+        + apply IHd; auto. }
+    destruct (Hfold (deps_of ds id) (id :: fst st, snd st)) as (s1 & E1 & N1 & B1 & I1); cbn [fst]; auto.
+    { cbn [length]. lia. }
+    rewrite E1. eexists. split; [reflexivity|]. cbn [fst]. repeat split; auto.
+    intros x Hx. apply I1. right; exact Hx.
+Qed.
+
+(* the emission never runs out of fuel: emit_order is total *)
+Theorem emit_order_total ds : exists order, emit_order ds = Some order.
+Proof.
+  unfold emit_order, emit_all.
+  assert (H : forall ids st, (forall id, In id ids -> id < length ds) -> NoDup (fst st) -> bounded (length ds) (fst st) ->
+            exists st', fold_left (fun acc id => match acc with None => None | Some st => visit (S (length ds)) ds id st end) ids (Some st) = Some st').
+  { induction ids as [|id ids IHi]; intros st Hids Hn Hb; [eexists; reflexivity|].
+    cbn [fold_left].
+    destruct (visit_terminates ds (S (length ds)) id st) as (s1 & E & N1 & B1 & _); auto.
+    - apply Hids. left; reflexivity.
+    - lia.
+    - rewrite E. apply IHi; auto. intros x Hx. apply Hids. right; exact Hx. }
+  destruct (H (seq 0 (length ds)) ([], [])) as (st' & E).
+  - intros id Hid. apply in_seq in Hid. lia.
+  - cbn. apply NoDup_nil.
+  - intros x [].
+  - rewrite E. eexists. reflexivity.
+Qed.
